@@ -80,6 +80,16 @@ CLAIMED = {
         technique="bounded stand-in for contract-based verification: deal run-time contracts on the real converters over an enumerated input set (labelled bounded, not proved)",
         design_ref="DESIGN.md section 2, C41",
     ),
+    "C45": dict(
+        category="exploration",
+        text=("BOUNDED stand-in (never counted as proved): deal run-time contracts on the real evolve_pdfs, info-file builders, writers and readers over one tiny LO card pair (three evolution points in two flavour "
+              "patches), a toy lhapdf-like PDF and a stub for lhapdf.paths(). Every written number of the data blocks equals x * apply_pdf(eko, member, target grid) to the printed precision; XMin / XMax / QMin / QMax "
+              "bound exactly the written grids, Flavors and NumMembers match; re-read blocks equal the dumped ones; AlphaS_Vals equal the coupling of the runner's couplings object at the listed scales (pole, MSbar, "
+              "exponentiated xif = 2); an explicit target grid (list or XGrid) is honoured. 10 evaluations. Four defects repaired by three fix commits."),
+        note="Bounded: finite input set stated in bounded/C45_native.py; no statement about other cards, installation into the LHAPDF directory or sets with several x-grids.",
+        technique="bounded stand-in for contract-based verification: deal run-time contracts on the real export functions over an enumerated input set (labelled bounded, not proved)",
+        design_ref="DESIGN.md section 2, C45",
+    ),
     "C40": dict(
         category="exploration",
         text=("BOUNDED stand-in, never counted as proved: YAML and the dataclass / typing reflection of eko.io.dictlike are outside the symbolic engine. `deal` run-time contracts on the real "
@@ -492,7 +502,6 @@ NA = {
     "C12": "convergence rate of iterated/perturbative discretisations towards a solution without closed form: no finite pre/postcondition decides it",
     "C28": "Python-vs-Rust equivalence: no Rust verifier installed; would be translation validation (different family)",
     "C35": "accuracy of numerical contour integration (scipy.integrate.quad) is outside the verifier's reach",
-    "C45": "needs LHAPDF tooling and a full solve; the reachable pure sliver cannot carry the statement",
     "C47": "two OS processes with different hash seeds: whole-process property",
     "C48": "numba compiler output vs Python definition: compiler semantics, not function contracts",
     "C50": "needs exact RG identities for all N3LO ingredients; otherwise x-space numerics",
